@@ -134,8 +134,9 @@ impl EXD {
         column: &ExcelColumnDefinition,
     ) -> Option<ColumnData> {
         let mut read_packed_bool = |shift: i32| -> bool {
+            // the flags live in the single byte at the column offset
             let bit = 1 << shift;
-            let bool_data: i32 = Self::read_data_raw(cursor).unwrap_or(0);
+            let bool_data: u8 = Self::read_data_raw(cursor).unwrap_or(0);
 
             (bool_data & bit) == bit
         };
